@@ -1,7 +1,7 @@
-from lv.checks import history, labrun, save, values
+from lv.checks import diagram, history, labrun, paths, save, values
 
 REGISTRY = {}
-REPLAYERS = {'save-fault': save.replay, 'history': history.replay, 'value-case': values.replay}
+REPLAYERS = {'save-fault': save.replay, 'history': history.replay, 'value-case': values.replay, 'path-case': paths.replay, 'diagram-case': diagram.replay}
 for _p in labrun.SPECS:
     REGISTRY[_p] = labrun.run
 REGISTRY['C12'] = save.run
@@ -11,3 +11,5 @@ REGISTRY['C08'] = history.run
 REGISTRY['C07'] = values.run
 REGISTRY['C09'] = values.run
 REGISTRY['C15'] = values.run
+REGISTRY['C18'] = paths.run
+REGISTRY['C20'] = diagram.run
